@@ -70,7 +70,7 @@ def emit_one(g, gi, runtime_ctor=False, limits=None, extra_decl=''):
             else: o.append('constexpr typed_term tt%d(%s, vf::TT<%d, %s>{});' % (j, ref, j, VT[getattr(g, 'tvtype', 'V')]))
             ref = 'tt%d' % j
         tref.append(ref)
-    rules = []
+    rules = []; locals_ = []
     is_ctx = False
     for ri, r in enumerate(g.rules):
         args = []
@@ -79,12 +79,16 @@ def emit_one(g, gi, runtime_ctor=False, limits=None, extra_decl=''):
             elif s[0] == 'e': args.append('error')
             else: args.append(tref[s[1]])
         txt = 'n%d(%s)' % (r.lhs, ', '.join(args))
+        if runtime_ctor and r.ftor != 'd' and (ri + gi) % 2 == 1:
+            # a rule held in a named (non-const) object and decorated later: rb = n(..); ... rules(rb >= f, ...)
+            locals_.append('auto rb%d = %s;' % (ri, txt)); txt = 'rb%d' % ri
         # the explicit precedence may be written before or after the functor: n(..)[p] >= f   or   (n(..) >= f)[p]
         post = bool(r.prec) and r.ftor != 'd' and (ri + gi + len(g.rules)) % 2 == 1
         if r.prec and not post: txt += '[%d]' % r.prec
         vt = VT[g.vtypes[r.lhs]]
         if r.ftor == 'f' and g.vtypes[r.lhs] == 'N': txt += ' >= vf::RN<%d>{}' % ri
         elif r.ftor == 'f': txt += ' >= vf::R<%d, %s>{}' % (ri, vt)
+        elif r.ftor == 'lr': txt += ' >= vf::RL<%d, %s>{}' % (ri, vt)
         elif r.ftor == 'x' and g.vtypes[r.lhs] == 'N': txt += ' >>= vf::XN<%d>{}' % ri; is_ctx = True
         elif r.ftor == 'x': txt += ' >>= vf::X<%d, %s>{}' % (ri, vt); is_ctx = True
         elif r.ftor == 'd': pass
@@ -108,7 +112,7 @@ def emit_one(g, gi, runtime_ctor=False, limits=None, extra_decl=''):
         g.root, ', '.join(tref), ', '.join('n%d' % i for i in range(len(g.nts))), ',\n  '.join(rules), tail)
     if runtime_ctor:
         # really constructed at run time: a static object with constant arguments would be constant-initialised by the compiler
-        o.append('inline const auto& get() { static const auto* q = new ' + decl.replace('parser p(', 'parser(', 1).rstrip(';') + '; return *q; }')
+        o.append('inline const auto& get() { static const auto* q = [] { ' + ' '.join(locals_) + ' return new ' + decl.replace('parser p(', 'parser(', 1).rstrip(';') + '; }(); return *q; }')
     else:
         o.append('constexpr ' + decl)
         o.append('inline const auto& get() { return p; }')
